@@ -280,12 +280,50 @@ def build_cases(tier, seed):
     return cases, n_def
 
 
+DUPLICATES = [
+    'define f begin on all end define f begin off all end f',
+    'define f begin on all end f define f begin off all end f',
+    'define f with n begin if {n > 0} f {n - 1} on all end if {1 > 2} begin define f with n begin off all end end f 1',
+    'define sqrt with x begin return 1 end print [sqrt 4]',
+    'define f on all define g off all define f g f',
+]
+
+
+def duplicates_worker(args):
+    """A call leads to the routine the source names: a name that is defined twice must be rejected; if it is accepted,
+    every call still has exactly one routine of that name to go to."""
+    from bardolph.parser.parse import Parser
+    res = report.WorkResult('routine names defined twice')
+    world.start_function_trace()
+    res.sites.add('duplicates')
+    for text in DUPLICATES:
+        res.nontrivial += 1
+        world.configure()
+        p = Parser()
+        ok = p.parse(text)
+        res.reached.add('duplicates')
+        if not ok:
+            if 'Line ' not in p.get_errors():
+                res.violation('duplicates|no message', 'rejected without a line-numbered message: %s' % text, inputs={'script': text}, replayed=True)
+            continue
+        names = [i.param0 for i in p.get_program() if i.op_code is OpCode.ROUTINE]
+        twice = sorted({n for n in names if names.count(n) > 1})
+        if twice:
+            loader = Loader()
+            loader.load(p.get_program())
+            res.violation('duplicates|two routines of one name', 'accepted although %s is defined %d times: the calls written for the first definition go to address %s, the last one loaded'
+                          % (twice, names.count(twice[0]), loader.get_routines()[twice[0]].get_address()), inputs={'script': text}, replayed=True)
+    res.functions = world.functions_seen()
+    return res
+
+
 def run(tier, seed):
     t0 = time.time()
     cases, n_def = build_cases(tier, seed)
     items = [{'case': c, 'timeout_ms': 4000, 'max_paths': 300 if tier == 'quick' else 2000,
               'budget_s': 12 if tier == 'quick' else 90} for c in cases]
-    results, skipped = report.run_pool(worker, items, budget_s=common.tier_budget(tier, 70, 900))
+    items.append({'duplicates': True})
+    results, skipped = report.run_pool(lambda a: duplicates_worker(a) if 'duplicates' in a else worker(a), items, budget_s=common.tier_budget(tier, 70, 900))
     jumps = sum(r.extra.get('jumps', 0) for r in results)
     return report.finish(
         PROP, tier, seed, 'exploration', results, skipped,
